@@ -7,7 +7,7 @@
 //   -DCFG_BACK=0|1     SmallSet backing set: 0 = std::set, 1 = amc::FlatSet
 //   -DCFG_UVEC=0..3    FlatSet underlying vector: 0 = amc::vector, 1 = SmallVector<T,CFG_N>, 2 = FixedCapacityVector<T,CFG_UCAP> (default 64),
 //                      3 = std::vector
-//   -DCFG_CMP=0..3     0 = std::less, 1 = std::greater, 2 = ModLess (coarse: compares v % 5, stateless),
+//   -DCFG_CMP=0..4     4 = StatefulLess in a different state (m = 7 + 3c) in every set c of the pool; 0 = std::less, 1 = std::greater, 2 = ModLess (coarse: compares v % 5, stateless),
 //                      3 = StatefulLess (compares v % m, m given at construction; default constructed m = 1000003)
 //   -DCFG_CAT=0|2      0 = int, 2 = ElemNTR (identity tracked, self-referential)
 #ifndef CFG_NO_EXTRAS
@@ -93,16 +93,20 @@ struct StatefulLess {
 
 #if CFG_CMP == 0
 using Cmp = CountLess;
-static Cmp makeCmp() { return Cmp(); }
+static Cmp makeCmp(int = 0) { return Cmp(); }
 #elif CFG_CMP == 1
 using Cmp = CountGreater;
-static Cmp makeCmp() { return Cmp(); }
+static Cmp makeCmp(int = 0) { return Cmp(); }
 #elif CFG_CMP == 2
 using Cmp = ModLess;
-static Cmp makeCmp() { return Cmp(); }
-#else
+static Cmp makeCmp(int = 0) { return Cmp(); }
+#elif CFG_CMP == 3
 using Cmp = StatefulLess;
-static Cmp makeCmp() { return Cmp(7); }
+static Cmp makeCmp(int = 0) { return Cmp(7); }
+#else
+// "mix": every set of the pool holds a comparator object in a different state (as std::set allows)
+using Cmp = StatefulLess;
+static Cmp makeCmp(int c = 0) { return Cmp(7 + 3 * c); }
 #endif
 
 // SmallSet configurations count the allocator requests of the backing set (the inline-storage promise of C05);
@@ -182,12 +186,8 @@ alignas(Ref) static unsigned char gRefStore[kMaxPool][sizeof(Ref)];
 static Ref *R(int c) { return reinterpret_cast<Ref *>(gRefStore[c]); }
 
 static void construct(int c) {
-#if CFG_IMPL == 0
-  new (gStore[c]) Set(makeCmp());
-#else
-  new (gStore[c]) Set(makeCmp());
-#endif
-  new (gRefStore[c]) Ref(makeCmp());
+  new (gStore[c]) Set(makeCmp(c));
+  new (gRefStore[c]) Ref(makeCmp(c));
 }
 
 static std::vector<int> parseList(const std::string &t) {
@@ -413,8 +413,9 @@ int main() {
           for (int x : vals) v.push_back(Elem(x));
           gCmp = 0;
           if (op == "fromv") {
+            Cmp kc = s.key_comp();  // the set keeps the comparator object it has (it may have come from another set)
             s.~Set();
-            new (gStore[c]) Set(std::move(v), makeCmp());
+            new (gStore[c]) Set(std::move(v), kc);
           } else {
             s = std::move(v);
           }
@@ -444,9 +445,10 @@ int main() {
           // range construction
           std::vector<int> vals = parseList(t[2]);
           std::vector<Elem> src(vals.begin(), vals.end());
+          Cmp kc = s.key_comp();
           s.~Set();
           gCmp = 0;
-          new (gStore[c]) Set(src.begin(), src.end(), makeCmp());
+          new (gStore[c]) Set(src.begin(), src.end(), kc);
           cmpsOp = gCmp;
           r.clear();
           for (int x : vals) r.insert(Elem(x));
